@@ -437,6 +437,26 @@ def check_logprob_columns(pb, opts, out, row_tags, ll_lib):
 
 
 # ---------------------------------------------------------------- one monitored rejection_sample call
+def dress_counts(rng, opts, desc=None):
+    """The same request with its integer-valued options as numpy integers (what `len(x) // 2` on arrays or
+    `np.sum(mask)` hand to the API) in a quarter of the sessions; the checkers keep reading the plain `opts`."""
+    if rng.random() >= 0.25:
+        return opts
+    out = dict(opts)
+    for k in ("n_prior_samples", "max_posterior_samples", "n_batches", "n_linear_samples", "n_requested_samples",
+              "max_prior_samples", "init_batch_size"):
+        if isinstance(out.get(k), int) and not isinstance(out.get(k), bool):
+            out[k] = np.int64(out[k]) if rng.random() < 0.7 else np.int32(out[k])
+    if isinstance(out.get("growth_factor"), int) and rng.random() < 0.5:
+        out["growth_factor"] = np.int64(out["growth_factor"])      # documented as int: a float is not part of the domain
+    if out.get("randomize_prior_order") is True:
+        # a truthy flag that is not the singleton True (what `n_use < n_total` on numpy values produces)
+        out["randomize_prior_order"] = np.bool_(True) if rng.random() < 0.7 else 1
+    if desc is not None:
+        desc["numpy_integer_options"] = True
+    return out
+
+
 def one_session(ctx, i, rng, return_logprobs=False, force=None, problem_kw=None, exc_classifier=None, inject=None):
     from thejoker import TheJoker
     kw_ = dict(problem_kw or {})
@@ -505,7 +525,7 @@ def one_session(ctx, i, rng, return_logprobs=False, force=None, problem_kw=None,
     lib_arg = lib_file(pb, ctx.tmpdir, "lib%d.hdf5" % i) if as_file else (N if as_int else pb.lib)
     Inject.active = inj
     try:
-        out, lls = joker.rejection_sample(pb.data, lib_arg, return_all_logprobs=True, **opts)
+        out, lls = joker.rejection_sample(pb.data, lib_arg, return_all_logprobs=True, **dress_counts(rng, opts, desc))
     except Exception as e:
         Inject.active = None
         # out of scope: every *evaluated* row had a non-finite likelihood (the property needs one finite value)
@@ -692,7 +712,7 @@ def iterative_session(ctx, i, rng, return_logprobs=False, problem_kw=None):
     raised = None
     ret = None
     try:
-        ret = joker.iterative_rejection_sample(pb.data, lib_arg, **opts)
+        ret = joker.iterative_rejection_sample(pb.data, lib_arg, **dress_counts(rng, opts, desc))
     except Exception as e:
         raised = e
     finally:
